@@ -195,10 +195,10 @@ const SCHEMAS = [
   S('proto', 'X.prototype.trim.apply(@X@, [])'),
   S('proto', 'X.prototype.trim.call(@X@, @Y@)'),
   // more arguments than the form needs: they are still evaluated
-  S('proto', 'X.prototype.concat.apply(a, [@X@], @Y@)'),
-  S('proto', 'X.prototype.concat.apply(a, arr, f(), @X@)'),
-  S('proto', 'X.prototype.concat.apply(@X@, @Y@, @Z@)'),
-  S('proto', 'X.prototype.trim.apply(a, [], @X@)')
+  S('proto', 'X.prototype.concat.apply(a, [@X@], @Y@)', { surplus: true }),
+  S('proto', 'X.prototype.concat.apply(a, arr, f(), @X@)', { surplus: true }),
+  S('proto', 'X.prototype.concat.apply(@X@, @Y@, @Z@)', { surplus: true }),
+  S('proto', 'X.prototype.trim.apply(a, [], @X@)', { surplus: true })
 ]
 
 // ---- G3 expression contexts ------------------------------------------------------------------------
